@@ -231,7 +231,7 @@ def run(ctx, replay=None):
     ctx.notes['calls_by_function_and_outcome'] = kinds
     for need in ('match', 'match:null', 'matchall', 'replace', 'replace:null', 'split'):
         if not kinds.get(need):
-            raise tlc.MachineryError(f'vacuity: no case of class {need}')
+            ctx.vacuous(f'vacuity: no case of class {need}')
     return F.finish(ctx, rule='random patterns of the modelled subset (depth <= 3, <= 9 groups, named groups, lazy / bounded repetition, '
                     'anchors, flags i m s, invalid flags) x random texts <= 9 characters over "abcAB.$\\n-" x templates with $n, $$, '
                     'backslashes and references to missing groups; executed by the real library through execute_script')
